@@ -250,6 +250,16 @@ func (p *jsonPathParser) setLastNodeText(text string) {
 func (p *jsonPathParser) updateAccessorMode(checkNode syntaxNode, mode bool) {
 	for checkNode != nil {
 		checkNode.setAccessorMode(mode)
+		if multiIdentifier, ok := checkNode.(*syntaxChildMultiIdentifier); ok {
+			// The inner identifiers (and the union used for all-wildcard lists) emit
+			// the results of a multi-identifier, so they must follow the same mode.
+			for _, identifier := range multiIdentifier.identifiers {
+				identifier.setAccessorMode(mode)
+			}
+			if multiIdentifier.isAllWildcard {
+				multiIdentifier.unionQualifier.setAccessorMode(mode)
+			}
+		}
 		checkNode = checkNode.getNext()
 	}
 }
